@@ -129,6 +129,10 @@ class C01(EntityHarness):
 class C02(EntityHarness):
     prop = "C02"
 
+    @classmethod
+    def builder_kwargs(cls, opts):
+        return dict(regions=opts["regions"], max_array=opts["max_array"], big_array=300)
+
     def run(self, c):
         b, x = self.build(c)
         sink = self.write(c, x)
@@ -356,7 +360,7 @@ def check(prop, tier, extra_tasks=None, assumptions=None):
         total, functions=FUNCTIONS[prop],
         bounds={"tier": tier, "classes": len(targets), "of_total_classes": len(classes),
                 "class_selection": "one representative per plan signature" if tier == "quick" else "all classes",
-                "array_lengths": "0..%d" % opts["max_array"], "length_regions_bytes": [list(r) for r in opts["regions"]],
+                "array_lengths": "0..%d; scalar arrays also 127%s" % (opts["max_array"], "; integer arrays also 300" if prop == "C02" else ""), "length_regions_bytes": [list(r) for r in opts["regions"]],
                 "shape_deviation_depth_max": opts["max_dev"], "paths_per_class_cap": opts["class_paths"],
                 "integers": "every fixed-width integer field over its whole range, simultaneously", "tail_bytes": 2},
         outside=["array lengths > %d" % opts["max_array"], "payload lengths >= 2^31", "shape combinations beyond the recorded deviation depth",
